@@ -53,7 +53,7 @@ def build(ctx):
                     for k, chunk in enumerate(groups):
                         nm = chunk[0][0] if dynamic else str(k)
                         hs.append(P.Harness("%s_%s_%s_%s_%s_%s_cxx%s" % (sch.ns, msg.name, lv.name, kind, nm, mode, std), mk(u, g, chunk, N, E, D), [u], unwind=G + 2,
-                                            cap=ctx.q(300, 900), backends=["minisat", "kissat"], extra_flags=["--no-standard-checks"],
+                                            cap=ctx.q(600, 1200), backends=["minisat", "kissat"], extra_flags=["--no-standard-checks"],
                                             meta={"big_loops": ["ref_walk_%s.%d" % (msg.name, x) for x in range(16)]},
                                             desc="message %s.%s level %s under schema extension (wire blockLength up to compiled+%d at every level): %s %s found where the wire image puts it" % (sch.ns, msg.name, lv.name, E, kind, [a[0] for a in chunk]),
                                             bounds={"N": N, "G": G, "D": D, "E": E, "std": "c++" + std, "build": mode, "byte_order": "BE" if sch.be else "LE"}))
@@ -69,7 +69,7 @@ def build(ctx):
             N = g.max_size(E, 1) + 1
             fn = "visitc_%s" % g.M
             hs.append(P.Harness("%s_%s_ext_%s_cxx%s" % (sch.ns, fn, mode, std), c19.harness(u, g, lines, capn + 1, N, E, 1, fn, False), [u], unwind=G + 2,
-                                cap=ctx.q(300, 900), backends=["minisat", "kissat"], extra_flags=["--no-standard-checks"],
+                                cap=ctx.q(600, 1200), backends=["minisat", "kissat"], extra_flags=["--no-standard-checks"],
                                 meta={"big_loops": ["ref_walk_%s.%d" % (msg.name, x) for x in range(16)]},
                                 desc="%s.%s under schema extension (wire blockLength up to compiled+%d at every level): visit_children with a recording visitor reports every member/entry where the wire image puts it; final cursor at the wire end" % (sch.ns, msg.name, E),
                                 bounds={"N": N, "G": g.G, "D": 1, "E": E, "std": "c++" + std, "build": mode}))
@@ -80,7 +80,7 @@ def build(ctx):
         chunk = pairs[j:j + 4]
         u = ctx.lower("c12f", c12.cpp(chunk, []), std="17", mode="checked", incs=[incd])
         for (n, b) in chunk:
-            hs.append(P.Harness("wide_stride_%s_%s_cxx17" % (n, b), c12.wide_harness(u, n, b), [u], unwind=4, backends=["z3", "minisat", "kissat"], cap=ctx.q(300, 900),
+            hs.append(P.Harness("wide_stride_%s_%s_cxx17" % (n, b), c12.wide_harness(u, n, b), [u], unwind=4, backends=["z3", "minisat", "kissat"], cap=ctx.q(600, 1200),
                                 extra_flags=["--no-standard-checks"],
                                 desc="flat group numInGroup=%s blockLength=%s: operator[] address with the wire blockLength over the whole type range" % (n, b),
                                 bounds={"blockLength": "full %s range (< 2^47)" % b, "numInGroup": "full %s range" % n, "i": "< 4"}))
@@ -89,7 +89,7 @@ def build(ctx):
     un = ctx.lower("c12n", c12.cpp([], [n_ if n_ == b_ else "%s_%s" % (n_, b_) for (n_, b_) in npairs]), std="17", mode="checked", incs=[incd])
     for (n, b) in npairs:
         for arm in (0, 1, 4):
-            hs.append(P.Harness("wide_nested_%s_%s_arm%d_cxx17" % (n, b, arm), c12.nested_harness(un, n, 2, b, wide=True), [un], unwind=5, backends=["minisat", "kissat"], cap=ctx.q(300, 900),
+            hs.append(P.Harness("wide_nested_%s_%s_arm%d_cxx17" % (n, b, arm), c12.nested_harness(un, n, 2, b, wide=True), [un], unwind=5, backends=["minisat", "kissat"], cap=ctx.q(600, 1200),
                                 defines=["VERIF_WHICH=%d" % arm], extra_flags=["--no-standard-checks"], meta={"big_unwind": 700},
                                 desc="nested group (numInGroup %s / blockLength %s) under a large schema extension: wire blockLength 2 or 259, arm %d of {0 forward iteration, 1 size_bytes/front, 4 cursor_range walk + final cursor}" % (n, b, arm),
                                 bounds={"size": "0..2", "blockLength": "{2, 259}", "data_len": "0..2"}))
